@@ -15,7 +15,7 @@ from typing import Any, Dict, List, Optional, Tuple
 
 from mc import core, gen, harness, traces
 from mc.core import Result, Violation
-from mc.props.c06 import ALPHA_FULL, ALPHA_SMALL, first_accepted_kind
+from mc.props.c06 import ALPHA_FULL, ALPHA_SMALL, SAME_FAMILY_PROGS, first_accepted_kind
 from mc.ref import interp
 
 TZS = ["UTC", "Asia/Tokyo", "Etc/GMT+8", "Asia/Kathmandu"]
@@ -227,6 +227,7 @@ def plan(tier: str):
     else:
         progs = gen.programs(ALPHA_FULL, [1, 2, 3])
         details, tzs = ["hash", "repr", "context", "all"], TZS
+    progs = list(progs) + list(SAME_FAMILY_PROGS)
     # programs that cannot even be constructed carry no SER: keep a few, drop the bulk
     progs = [p for p in sorted(set(progs)) if sum(gen.SYMBOLS[s]["kind"] == "invalid" for s in p) == 0 or len(p) == 1]
     jobs = []
